@@ -92,10 +92,16 @@ def main():
                 print("%-45s ERROR %s" % (seed, res["error"]))
                 bad += 1
                 continue
+            neutral = seed.startswith("neutral-")
             for r in res["runs"]:
-                print("%-45s %s exit=%d %5.0fs %s" % (seed, r["check"], r["exit"], r["seconds"], "DETECTED" if r["detected"] else "missed"))
-                if not r["detected"]:
-                    bad += 1
+                if neutral:
+                    # behaviour-preserving change: the check must stay silent (exit 0); exit 2 = machinery could not cope, exit 1 = false alarm
+                    verdict = "QUIET" if r["exit"] == 0 else ("FALSE-ALARM" if r["exit"] == 1 else "MACHINERY-FAULT")
+                    bad += 0 if r["exit"] == 0 else 1
+                else:
+                    verdict = "DETECTED" if r["detected"] else "missed"
+                    bad += 0 if r["detected"] else 1
+                print("%-45s %s exit=%d %5.0fs %s" % (seed, r["check"], r["exit"], r["seconds"], verdict))
     for i in range(lanes):
         shutil.rmtree("/tmp/seedcache-%d-%d" % (os.getpid(), i), ignore_errors=True)
     sh("git -C /repo worktree prune")
